@@ -78,7 +78,7 @@ func Copy(ctx context.Context, srcRoot, src, dstRoot, dst string, opts ...Opt) e
 		o(&ci)
 	}
 	ensureDstPath := dst
-	if d, f := filepath.Split(dst); f != "" && f != "." {
+	if d, f := filepath.Split(dst); f != "" && f != "." && f != ".." {
 		ensureDstPath = d
 	}
 	if ensureDstPath != "" {
